@@ -330,6 +330,40 @@ pub fn run(run: &mut Run) {
                     crate::spec::KfSpec { pos: 1.0, vals: vec![Some(8.0)], easing: None },
                 ],
             };
+            // a second timeline without a keyframe at 0 %: the stretch from the implicit start to the first keyframe is
+            // shaped by the (custom) default easing, whatever easing that first keyframe carries
+            {
+                let spec2 = crate::spec::TlSpec {
+                    cycle: 1.0,
+                    delay: 0.0,
+                    repeat: crate::spec::Rep::None,
+                    reverse: false,
+                    default_easing: Some(crate::spec::Eas::Rec(fid)),
+                    kfs: vec![
+                        crate::spec::KfSpec { pos: 0.5, vals: vec![Some(2.0)], easing: Some(crate::spec::Eas::Rec(gid)) },
+                        crate::spec::KfSpec { pos: 1.0, vals: vec![Some(6.0)], easing: None },
+                    ],
+                };
+                let tl2 = S1::build_tl(&spec2);
+                let x = ((i * 29 % 63) + 1) as f32 / 64.0;
+                for (seg, (a, b, id)) in [(0.0f32, 2.0f32, fid), (2.0, 6.0, gid)].iter().enumerate() {
+                    let t = 0.5 * (seg as f32 + x);
+                    let _ = rec_log_take();
+                    let mut v = S1 { x: -1.0 };
+                    tl2.update(&mut v, t);
+                    let log = rec_log_take();
+                    run.acc.eval();
+                    let y = rec_pure(*id, x);
+                    let want = a * (1.0 - y) + b * y;
+                    if (v.x - want).abs() > 4.0 * ulp32(want.abs().max(1.0)) || !log.iter().all(|(l, _)| l == id) || log.is_empty() {
+                        run.acc.violation(
+                            "c13:custom-in-timeline",
+                            format!("timeline without a 0 % keyframe, custom default easing #{fid}, first keyframe (50 %) with custom easing #{gid}: segment {seg} at fraction {x} gives {} (expected {want} from custom #{id}); custom functions called: {:?}", v.x, log),
+                            case_json(6, i as u64, vec![("x", J::F(x as f64)), ("segment", J::U(seg as u64))]),
+                        );
+                    }
+                }
+            }
             let tl = S1::build_tl(&spec);
             let x = ((i * 37 % 63) + 1) as f32 / 64.0; // fraction within a segment, exact
             for (seg, (a, b, who)) in [(0.0f32, 1.0f32, Some(fid)), (1.0, 3.0, Some(gid)), (3.0, 4.0, None), (4.0, 8.0, Some(fid))].iter().enumerate() {
